@@ -25,9 +25,7 @@ for _f in sorted(glob.glob(os.path.join(ROOT, "props", "C*.json"))):
     REGISTRY[_p] = _c
 
 # Properties not claimed, each with a one-line reason.
-NOT_APPLICABLE = {
-    "C18": "data-race freedom is defined over the memory accesses of the compiled Go program; no executable Gallina model tied by observable behaviour can express it (DESIGN.md §4 C18); using the race detector would be switching technique",
-}
+NOT_APPLICABLE = {}
 for _p in ["C%02d" % i for i in range(1, 20)]:
     if _p not in REGISTRY and _p not in NOT_APPLICABLE:
         NOT_APPLICABLE[_p] = "not yet built: model, theorems and correspondence harness are designed in DESIGN.md §4 but no check is registered yet"
